@@ -43,3 +43,205 @@ def for_property(prop, tier, rnd):
         s["id"] = "%s-g%d-%s" % (prop, i, s["id"])
         s["seed"] = rnd.randrange(1 << 30)
     return out
+
+
+# ---------------------------------------------------------------------------------------------
+def reg(mid, name):
+    return P("REGISTER", mid=mid, topic=name)
+
+
+def sub(mid, name, qos=1, **kw):
+    return P("SUBSCRIBE", mid=mid, topic=name, qos=qos, tit=0, **kw)
+
+
+def bpub(topic, qos=0, mid=0, pl="s:x", **kw):
+    return M("PUBLISH", topic=topic, qos=qos, mid=mid if qos else 0, pl=pl, **kw)
+
+
+def gen_C04(tier, rnd):
+    out = []
+    # small range 1..3 with predefined ID 2 inside: IDs 1 and 3 are available
+    ev = CONNECT + [reg(1, "t/a"), reg(2, "t/b"), reg(3, "t/c"), reg(4, "t/d"), sub(5, "t/e"), reg(6, "t/a"),
+                    sub(7, "t/b"), M("SUBACK", mid=7, codes=[1]), reg(8, "t/f"), bpub("t/a"), bpub("t/new")]
+    out.append(sc("small-exhaust", ev))
+    ev = CONNECT + [sub(1, "t/a"), M("SUBACK", mid=1, codes=[0]), bpub("n/1"), P("REGACK", mid=65535, tid=3, rc=0),
+                    reg(2, "t/z"), sub(3, "t/y"), reg(4, "t/x"), sub(5, "t/a"), M("SUBACK", mid=5, codes=[2])]
+    out.append(sc("small-mixed", ev))
+    # the real range 1..0xFFFE brought to the brink
+    for skip, n in ((65530, 8), (65533, 4), (65534, 3)):
+        ev = list(CONNECT)
+        for i in range(n):
+            ev.append(reg(10 + i, "r/%d" % i) if i % 3 else sub(10 + i, "r/%d" % i))
+            if not i % 3:
+                ev.append(M("SUBACK", mid=10 + i, codes=[0]))
+        ev += [reg(50, "r/0"), reg(51, "r/again"), bpub("r/1")]
+        out.append(sc("real-range-%d" % skip, ev, tidmin=1, tidmax=65534, skiptids=skip, predef=[]))
+    # predefined IDs at the end of the real range
+    ev = CONNECT + [reg(1, "e/1"), reg(2, "e/2"), reg(3, "e/3"), reg(4, "e/4")]
+    out.append(sc("real-range-predef-tail", ev, tidmin=1, tidmax=65534, skiptids=65531,
+                  predef=[{"c": "*", "id": 65533, "n": "p/1"}, {"c": "c1", "id": 65534, "n": "p/2"}]))
+    return out
+
+
+SIZES = [0, 1, 2, 245, 246, 247, 248, 249, 250, 251, 252, 253, 254, 255, 256, 300, 1000, 7168, 8000, 8183, 8184, 8192, 9000,
+         20000, 65526, 65527, 65535, 70000]
+
+
+def gen_C23(tier, rnd):
+    out = []
+    sizes = SIZES if tier == "thorough" else rnd.sample(SIZES, 12) + [8183, 8184, 65527]
+    for n in sizes:
+        for qos in (0, 1):
+            ev = CONNECT + [reg(1, "t/a"), bpub("t/a", qos=qos, mid=7, pl="z:%d" % n), bpub("ab", qos=qos, mid=8, pl="z:%d" % n)]
+            out.append(sc("payload-%d-q%d" % (n, qos), ev, tail=30))
+    # CONNACK shapes: zero keep-alive, awake/asleep shortcut
+    out.append(sc("zero-ka", [P("CONNECT", dur=0, cid="c1")], tail=5))
+    out.append(sc("zero-ka-active", CONNECT + [P("CONNECT", dur=0, cid="c1")], tail=5))
+    out.append(sc("wake-connect", CONNECT + [P("DISCONNECT", dur=3), P("PINGREQ", cid="c1"), P("CONNECT", dur=2, cid="c1")], tail=5))
+    out.append(sc("asleep-connect", CONNECT + [P("DISCONNECT", dur=3), bpub("ab"), P("CONNECT", dur=2, cid="c1")], tail=5))
+    return out
+
+
+def gen_C02(tier, rnd):
+    out = []
+    sizes = [0, 1, 250, 251, 252, 7168] if tier == "quick" else [s for s in SIZES if s <= 7168]
+    for n in sizes:
+        for qos in (0, 1, 2):
+            ev = CONNECT + [sub(1, "t/a"), M("SUBACK", mid=1, codes=[qos]), bpub("t/a", qos=qos, mid=7, pl="z:%d" % n, retain=bool(n % 2)),
+                            bpub("n/%d" % n, qos=qos, mid=8, pl="z:%d" % n), P("REGACK", mid=8 if qos else 65535, tid=3, rc=0)]
+            out.append(sc("size-%d-q%d" % (n, qos), ev, tail=15))
+    # names known through different routes, repeated (map iteration order)
+    for k in range(10 if tier == "quick" else 60):
+        ev = CONNECT + [reg(1, "t/a"), sub(2, "t/b"), M("SUBACK", mid=2, codes=[0]), sub(3, "t/a"), M("SUBACK", mid=3, codes=[1]),
+                        bpub("t/a"), bpub("t/b", qos=1, mid=4), bpub("pre/x"), bpub("pre/y"), bpub("pre/z"), bpub("own/z"), bpub("ab")]
+        out.append(sc("routes-%d" % k, ev, tidmax=9, tail=15))
+    return out
+
+
+def gen_C01(tier, rnd):
+    out = []
+    sizes = [0, 1, 250, 251, 252, 7168] if tier == "quick" else [s for s in SIZES if s <= 7168]
+    for n in sizes:
+        ev = CONNECT + [reg(1, "t/a")]
+        for qos in (0, 1, 2, 3):
+            ev.append(P("PUBLISH", qos=qos, tit=0, tid=1, mid=10 + qos, data="z:%d" % n, retain=bool(qos % 2), dup=qos == 2))
+            ev.append(P("PUBLISH", qos=qos, tit=2, sname="xy", mid=20 + qos, data="z:%d" % n))
+            ev.append(P("PUBLISH", qos=qos, tit=1, tid=5, mid=30 + qos, data="z:%d" % n, dup=True))
+        out.append(sc("size-%d" % n, ev, tail=15))
+    # full-range IDs
+    for k in range(6 if tier == "quick" else 40):
+        mid = rnd.choice([1, 255, 256, 0xFFFE, 0xFFFF, rnd.randrange(1, 65536)])
+        tid = rnd.choice([1, 2, 3, 255, 256, 0xFFFE, 0xFFFF, 0])
+        ev = CONNECT + [reg(mid, "t/a"), P("PUBLISH", qos=rnd.choice([1, 2]), tit=0, tid=1, mid=mid, data="s:a"),
+                        P("PUBLISH", qos=1, tit=rnd.choice([0, 1]), tid=tid, mid=mid, data="s:b")]
+        out.append(sc("ids-%d" % k, ev, tail=15))
+    return out
+
+
+def pingreq():
+    return P("PINGREQ", cid="c1")
+
+
+def gen_C12(tier, rnd, brokermodel=False):
+    """timed histories in which the client meets its obligations (KA = 2 s = 20 ticks)"""
+    out = []
+    ka = 20
+    for gap in (10, 19, 20):
+        ev = list(CONNECT)
+        for _ in range(4):
+            ev += [adv(gap), pingreq(), M("PINGRESP")]
+        out.append(sc("active-gap%d" % gap, ev, tail=5))
+    for dur in (1, 2, 3, 5, 7):
+        for late in (0, 1):             # wake at the last permitted tick or one tick earlier
+            for before in (0, 10, 20):  # how long after its last packet the client falls asleep
+                ev = list(CONNECT) + [adv(before), P("DISCONNECT", dur=dur)]
+                for _ in range(4):
+                    ev += [adv(10 * dur - late), pingreq()]
+                ev += [adv(10 * dur - late), P("CONNECT", dur=2, cid="c1"), adv(ka), pingreq(), M("PINGRESP")]
+                out.append(sc("sleep-d%d-l%d-b%d" % (dur, late, before), ev, tail=5))
+    # sleep renewed while asleep, publishes during sleep
+    ev = list(CONNECT) + [P("DISCONNECT", dur=3), adv(25), P("DISCONNECT", dur=1), adv(10), pingreq(), adv(9), pingreq(),
+                          adv(10), P("DISCONNECT", dur=6), adv(55), pingreq(), adv(59), P("CONNECT", dur=2, cid="c1")]
+    out.append(sc("renewed", ev, tail=5))
+    for s in out:
+        s["brokermodel"] = brokermodel
+    return out
+
+
+def gen_C34(tier, rnd):
+    """the client falls silent for ever at some point; a broker model enforces keep-alive"""
+    out = []
+    prefixes = {
+        "nothing": [],
+        "connect-only": [P("CONNECT", dur=2, cid="c1")],
+        "will-req": [P("CONNECT", dur=2, cid="c1", will=True)],
+        "active": list(CONNECT),
+        "active-pinged": list(CONNECT) + [adv(15), pingreq(), M("PINGRESP")],
+        "asleep-short": list(CONNECT) + [P("DISCONNECT", dur=1)],
+        "asleep-long": list(CONNECT) + [P("DISCONNECT", dur=7)],
+        "asleep-woken": list(CONNECT) + [P("DISCONNECT", dur=3), adv(20), pingreq()],
+        "asleep-twice": list(CONNECT) + [P("DISCONNECT", dur=3), adv(20), P("DISCONNECT", dur=5), adv(10), pingreq()],
+        "woken-connect": list(CONNECT) + [P("DISCONNECT", dur=3), adv(20), pingreq(), P("CONNECT", dur=2, cid="c1")],
+        "pending-qos1": list(CONNECT) + [bpub("ab", qos=1, mid=3)],
+        "pending-qos2": list(CONNECT) + [bpub("ab", qos=2, mid=3), P("PUBREC", mid=3)],
+        "asleep-pending": list(CONNECT) + [bpub("ab", qos=1, mid=3), P("DISCONNECT", dur=4)],
+    }
+    for name, ev in prefixes.items():
+        s = sc("silent-" + name, ev, tail=200)
+        s["brokermodel"] = True
+        out.append(s)
+    out += gen_C12(tier, rnd, brokermodel=True)
+    return out
+
+
+def gen_C11(tier, rnd):
+    out = []
+    flows = {
+        "q0": [bpub("ab"), bpub("t/a")],
+        "q1": [bpub("ab", qos=1, mid=3)],
+        "q2": [bpub("ab", qos=2, mid=4)],
+        "new": [bpub("n/1"), bpub("n/2", qos=1, mid=5)],
+        "acks": [M("PUBREC", mid=9), M("PUBCOMP", mid=9), M("UNSUBACK", mid=9), M("PINGRESP")],
+    }
+    for name, fl in flows.items():
+        for cycles in (1, 2, 3):
+            ev = list(CONNECT) + [reg(1, "t/a"), P("DISCONNECT", dur=3)]
+            for c in range(cycles):
+                ev += fl + [adv(12), pingreq()]
+                # answer what was delivered
+                ev += [P("PUBACK", mid=3, tid=24930, rc=0), P("PUBREC", mid=4), P("REGACK", mid=65535, tid=2, rc=0),
+                       P("REGACK", mid=5, tid=3, rc=0)]
+            ev += [P("CONNECT", dur=2, cid="c1"), bpub("ab")]
+            out.append(sc("%s-%dcycles" % (name, cycles), ev, tidmax=9))
+    # traffic before sleep with exchanges pending, retries during sleep
+    ev = list(CONNECT) + [bpub("ab", qos=1, mid=3), P("DISCONNECT", dur=4), adv(10), adv(10), adv(15), pingreq(), bpub("ab", qos=1, mid=4),
+                          adv(5), pingreq(), P("PUBACK", mid=4, tid=24930, rc=0)]
+    out.append(sc("pending-before-sleep", ev))
+    ev = list(CONNECT) + [P("DISCONNECT", dur=4), bpub("ab", qos=1, mid=3), adv(10), adv(10), adv(10), pingreq()]
+    out.append(sc("retries-while-asleep", ev, retrycount=3))
+    ev = list(CONNECT) + [P("DISCONNECT", dur=4), bpub("ab"), P("DISCONNECT", dur=2), bpub("t/x"), pingreq()]
+    out.append(sc("renewed-sleep-keeps-buffer", ev))
+    ev = list(CONNECT) + [P("DISCONNECT", dur=4), reg(1, "t/r"), sub(2, "t/s"), M("SUBACK", mid=2, codes=[0]), pingreq()]
+    out.append(sc("client-requests-while-asleep", ev, tidmax=9))
+    return out
+
+
+def gen_C10(tier, rnd):
+    out = []
+    pre = {
+        "connect": [P("CONNECT", dur=2, cid="c1")],
+        "connect-will": [P("CONNECT", dur=2, cid="c1", will=True)],
+        "will-topic": [P("CONNECT", dur=2, cid="c1", will=True), P("WILLTOPIC", topic="wt", qos=1)],
+        "will-msg": [P("CONNECT", dur=2, cid="c1", will=True), P("WILLTOPIC", topic="wt", qos=1), P("WILLMSG", data="s:w")],
+        "restarted": [P("CONNECT", dur=2, cid="c1", will=True), adv(30), P("CONNECT", dur=2, cid="c1")],
+        "restarted-late": [P("CONNECT", dur=2, cid="c1"), adv(49), P("CONNECT", dur=2, cid="c1", will=True)],
+    }
+    for auth in (False, True):
+        for name, ev in pre.items():
+            e2 = list(ev)
+            if auth:
+                e2 = [e2[0], P("AUTH", method="PLAIN", user="u", **{"pass": "p"})] + e2[1:]
+            out.append(sc("%s-auth%d" % (name, auth), e2, tail=60, auth=auth))
+            if auth:
+                out.append(sc("%s-noauthpkt" % name, list(ev), tail=60, auth=True))
+    return out
